@@ -25,7 +25,10 @@ FIRST_TRY = {'C01': True, 'C02': True, 'C03': False, 'C04': True, 'C05': False, 
              'C18g': True, 'C19g': False, 'C20g': True,
              'C01h': True, 'C02h': True, 'C03h': False, 'C04h': False, 'C05h': True, 'C06h': True, 'C07h': True, 'C08h': False, 'C09h': True,
              'C10h': True, 'C11h': True, 'C12h': False, 'C13h': True, 'C14h': True, 'C15h': True, 'C16h': False, 'C17h': False,
-             'C18h': False, 'C19h': False, 'C20h': True}
+             'C18h': False, 'C19h': False, 'C20h': True,
+             'C01i': True, 'C02i': False, 'C03i': True, 'C04i': False, 'C05i': False, 'C06i': True, 'C07i': True, 'C08i': True, 'C09i': True,
+             'C10i': False, 'C11i': True, 'C12i': True, 'C13i': False, 'C14i': True, 'C15i': True, 'C16i': True, 'C17i': True,
+             'C18i': False, 'C19i': False, 'C20i': False}
 REJECTED = {
     'C18h': 'superseded: caught by C18 (send:Updates:over) until repair e4f0c24 moved the counting to write time; since then the '
             'change is consistent with the statistic and no longer a C18 violation',
@@ -83,6 +86,14 @@ STRENGTHEN = {
     'C17h': 'extended-community lists of 32 and 40 elements (more than a one-octet length holds): refusing them is accepted, the requests that follow in the same process must still be answered correctly',
     'C18h': 'REST sends whose hand-over to the reactor is carried out only after the next event (rest-update-late / rest-bin-late).  On the unchanged tree this exposed a genuine defect (F060: counted when queued, lost when the peer closes first); after the repair (count at write time) the seeded change no longer breaks C18 - it drops exactly the messages that are not counted any more - and is kept for the record only',
     'C19h': 'MP_REACH and MP_UNREACH of one family in one UPDATE / REST request (operation mp-both), also in the exhaustive alphabet',
+    'C02i': 'C02 got shards in the multi-connection regime of C12 (connect-retry below the TCP timeout, the connectionLost after the agent\'s own close as an event of its own), handed over to the cooperative peer like the others; C13\'s new quick-restart variant catches the change as well',
+    'C04i': 'the agent\'s internal request queue may hold a handler request (serialisable, not serialisable, both) when the stream arrives',
+    'C05i': 'before the OPEN under observation the peer may send a well-framed OPEN whose optional parameters cannot be decoded; if the agent lets it pass, the real OPEN is negotiated as a first one',
+    'C10i': 'when the hostile message comes during the handshake and is let pass, the peer completes the handshake on the same connection and the absolute oracle for good UPDATEs applies to the session that results',
+    'C13i': 'quick-restart variant: manual-start immediately after the stop (before the old connectionLost is delivered), then late completions / refusals / timers, then the cooperative peer must get a session',
+    'C18i': 'NOTIFICATION events whose data is not valid UTF-8 (Cease 6/2 and 6/4) and code 7 in the walks; the C01 notification grid got the same data values',
+    'C19i': 'peer announcements / withdrawals whose prefixes carry set bits beyond the prefix length (ann / wd "dirty"), one more prefix of unaligned length',
+    'C20i': 'update payloads that neither json library can serialise: tuple keys, non-UTF-8 octet strings, sets, nested',
     'C16c': 'send cases now run with [bgp] rib on or off and with 0-2 earlier announcements on the same session whose prefixes the checked request may withdraw or re-announce (a withdraw list mixing announced and never-announced prefixes is the trigger)',
     'C19c': 'new operation: one peer UPDATE that carries IPv4 withdrawn routes together with a flowspec / VPNv4 MP_REACH or MP_UNREACH attribute; both parts must be applied (patch rebased onto the current tree because a later fix touched the same lines; original kept as patch.orig.diff)',
     'C20c': 'the peer address as configured became a dimension (IPv4, lower-case IPv6, upper-case IPv6) and a handler callback that raises is now a violation (event not logged) instead of a harness error',
@@ -113,7 +124,7 @@ def main():
     with open(os.path.join(HERE, 'seeded', 'INDEX.md'), 'w') as f:
         f.write('# Seeded changes (written by fresh sub-agents that saw only the property text)\n\n'
                 'Round 1: one change per property (C01..C20). Round 2 (ids ending in b): a second, different change for all twenty\n'
-                'properties. Rounds 3 to 7 (ids ending in c / d, e, f, g and h): further ones, the sub-agent being told what the earlier rounds had changed.\n'
+                'properties. Rounds 3 to 8 (ids ending in c / d, e, f, g, h and i): further ones, the sub-agent being told what the earlier rounds had changed.\n'
                 'Each directory holds patch.diff, the agent\'s demo.py, meta.json (incl. what the verifier ran) and\n'
                 'result.txt; `tools/try_seed.sh <id>` re-runs the confirmation on scratch copies of /repo.\n\n'
                 '| id | change | needs | caught on first run | final check result |\n|---|---|---|---|---|\n')
